@@ -664,8 +664,9 @@ def clip(a, a_min=None, a_max=None, out=None, out_like=None, sizing='optimal', m
 
         return utils.clip(x.val, val_min=val_min, val_max=val_max) * precision_cast(2**(n_frac - x.n_frac))
 
-    kwargs['a_min'] = a_min
-    kwargs['a_max'] = a_max
+    # bounds given as fixed-point objects count by their values
+    kwargs['a_min'] = a_min.get_val() if isinstance(a_min, Fxp) else a_min
+    kwargs['a_max'] = a_max.get_val() if isinstance(a_max, Fxp) else a_max
     return _function_over_one_var(repr_func=np.clip, raw_func=_clip_raw, x=a, out=out, out_like=out_like, sizing=sizing, method=method, **kwargs)
 
 @implements(np.diagonal)
